@@ -80,8 +80,37 @@ def fmt_source(c):
     return "\n".join(L)
 
 
+@st.composite
+def list_case(draw):
+    """Generic List<T> over structs of 1-6 fields (8-48 bytes), List<int>, List<string>: pushes across every growth
+    step, reads, overwrites."""
+    return {"fields": draw(st.integers(1, 6)), "n": draw(st.sampled_from([0, 1, 3, 4, 5, 6, 8, 9, 16, 17, 33, 70])),
+            "strfield": draw(st.booleans()), "n_int": draw(st.sampled_from([0, 4, 5, 9, 40])), "n_str": draw(st.sampled_from([0, 4, 5, 17]))}
+
+
+def list_source(c):
+    nf = c["fields"]
+    names = ["f%d" % i for i in range(nf)]
+    types = ["int"] * nf
+    if c["strfield"]:
+        types[-1] = "string"
+    lit = lambda i: ", ".join("%s: %s" % (n, ('(+ "s" (int_to_string i))' if t == "string" else "(* i %d)" % (k + 1))) for k, (n, t) in enumerate(zip(names, types)))
+    L = ["struct C20R { %s }" % ", ".join("%s: %s" % (n, t) for n, t in zip(names, types)),
+         "fn fill(n: int) -> int {", "    let rs: List<C20R> = (list_C20R_new)", "    let mut i: int = 0", "    while (< i n) {",
+         "        (list_C20R_push rs C20R { %s })" % lit("i"), "        set i (+ i 1)", "    }",
+         "    if (> n 0) {", "        let last: C20R = (list_C20R_get rs (- (list_C20R_length rs) 1))", "        (println last.f0)",
+         "        let first: C20R = (list_C20R_get rs 0)", "        (println first.f0)", "    }",
+         "    return (list_C20R_length rs)", "}", "shadow fill { assert (== (fill 2) 2) }",
+         "fn main() -> int {", "    (println (fill %d))" % c["n"],
+         "    let li: List<int> = (list_int_new)", "    let mut i: int = 0", "    while (< i %d) {" % c["n_int"], "        (list_int_push li (* i 3))", "        set i (+ i 1)", "    }",
+         "    (println (list_int_length li))",
+         "    let ls: List<string> = (list_string_new)", "    set i 0", "    while (< i %d) {" % c["n_str"], '        (list_string_push ls (+ "e" (int_to_string i)))', "        set i (+ i 1)", "    }",
+         "    (println (list_string_length ls))", "    return 0", "}", "shadow main { assert true }", ""]
+    return "\n".join(L)
+
+
 def strategy(ctx):
-    return st.one_of(progen.programs(features=ctx.features, size=ctx.size).map(lambda p: ("prog", p)),
+    return st.one_of(list_case().map(lambda c: ("list", c)),progen.programs(features=ctx.features, size=ctx.size).map(lambda p: ("prog", p)),
                      progen.programs(features=ctx.features, size=ctx.size).map(lambda p: ("prog", p)),
                      fmt_case().map(lambda c: ("fmt", c)))
 
@@ -106,6 +135,17 @@ def run_san(ctx, src, name="p.nano"):
 
 def run_case(ctx, case, ev):
     kind, prog = case
+    if kind == "list":
+        src = list_source(prog)
+        v, detail, r = run_san(ctx, src, "l.nano")
+        ev.case(src, v == "ok" and prog["n"] > 4)
+        ev.cls("list_verdict_" + v)
+        ev.cls("list_struct_bytes_%d" % (8 * prog["fields"]))
+        if v == "inconclusive":
+            ev.inconclusive += 1
+        if v == "violation":
+            raise CaseFailure(detail, {"result": r.brief()})
+        return
     if kind == "fmt":
         src = fmt_source(prog)
         v, detail, r = run_san(ctx, src, "f.nano")
@@ -145,6 +185,8 @@ def describe_failure(ctx, case, cf):
     kind, prog = case
     if kind == "fmt":
         return {"src": fmt_source(prog), "detail": cf.detail, "payload": cf.payload, "sigs": []}
+    if kind == "list":
+        return {"src": list_source(prog), "detail": cf.detail, "payload": cf.payload, "sigs": []}
     open_sigs = [f.get("signature") for f in common.open_findings(PROP) if f.get("signature")]
     return {"src": progen.print_program(prog), "detail": cf.detail, "payload": cf.payload, "sigs": signatures.matching(prog, open_sigs)}
 
